@@ -1,0 +1,329 @@
+//go:build verif
+// +build verif
+
+package main
+
+// Verification hook (C17): runs the real NewOptions + flagSet (what GetOptions does before its side
+// effects: version print, log file, pid file) for supplied environments, configuration files and
+// command lines, and prints every effective setting.
+//
+// Case lines are read from $VERIF_IN:
+//
+//	options <env> <file> <args>\t<expectation>
+//
+//	env   "-" or NAME=<hex value>,…           environment variables to set (all other VFLOW_* are unset)
+//	file  "-" (no file) or "F:" + key:i:<decimal> | key:b:true|false | key:s:<hex>, comma separated
+//	args  "-" or comma separated hex tokens of os.Args[1:]; "@" = path of the file, "." = empty token
+//
+// For every line one line "<impl>\t<verdict>" is written to $VERIF_OUT:
+//
+//	impl    = "ok Field=i:<n>;Field=b:<bool>;Field=s:<hex>;…" (every int/string/bool setting, struct order)
+//	          | "exit <code>" | "panic"
+//	verdict = ok | fail:<reason>: the expectation names the touched fields and their values by the
+//	          documented precedence; every other field must equal NewOptions()'s default.
+//
+// Cases expected to end the process (log.Fatal in getEnv, flag errors, -h) run in a child process.
+
+import (
+	"bufio"
+	"encoding/hex"
+	"flag"
+	"fmt"
+	"io/ioutil"
+	"log"
+	"os"
+	"os/exec"
+	"path/filepath"
+	"reflect"
+	"strconv"
+	"strings"
+	"testing"
+)
+
+type verifOptCase struct {
+	env  [][2]string
+	file []string // yaml lines; nil = no file
+	args []string
+}
+
+func verifUnhex(s string) (string, error) {
+	b, err := hex.DecodeString(s)
+	return string(b), err
+}
+
+func verifYAMLQuote(s string) string {
+	var b strings.Builder
+	b.WriteByte('"')
+	for i := 0; i < len(s); i++ {
+		c := s[i]
+		switch {
+		case c == '"' || c == '\\':
+			b.WriteByte('\\')
+			b.WriteByte(c)
+		case c < 0x20 || c > 0x7e:
+			fmt.Fprintf(&b, "\\x%02x", c)
+		default:
+			b.WriteByte(c)
+		}
+	}
+	b.WriteByte('"')
+	return b.String()
+}
+
+func verifParseOptions(line, cfgPath string) (c verifOptCase, err error) {
+	f := strings.Split(line, " ")
+	if len(f) != 4 || f[0] != "options" {
+		return c, fmt.Errorf("bad case line")
+	}
+	if f[1] != "-" {
+		for _, kv := range strings.Split(f[1], ",") {
+			p := strings.SplitN(kv, "=", 2)
+			if len(p) != 2 {
+				return c, fmt.Errorf("bad env")
+			}
+			v, err := verifUnhex(p[1])
+			if err != nil {
+				return c, err
+			}
+			c.env = append(c.env, [2]string{p[0], v})
+		}
+	}
+	if f[2] != "-" {
+		c.file = []string{}
+		body := strings.TrimPrefix(f[2], "F:")
+		if body != "" {
+			for _, e := range strings.Split(body, ",") {
+				p := strings.SplitN(e, ":", 3)
+				if len(p) != 3 {
+					return c, fmt.Errorf("bad file entry")
+				}
+				switch p[1] {
+				case "i", "b":
+					c.file = append(c.file, p[0]+": "+p[2])
+				case "s":
+					v, err := verifUnhex(p[2])
+					if err != nil {
+						return c, err
+					}
+					c.file = append(c.file, p[0]+": "+verifYAMLQuote(v))
+				default:
+					return c, fmt.Errorf("bad file kind")
+				}
+			}
+		}
+	}
+	if f[3] != "-" {
+		for _, t := range strings.Split(f[3], ",") {
+			switch t {
+			case "@":
+				c.args = append(c.args, cfgPath)
+			case ".":
+				c.args = append(c.args, "")
+			default:
+				v, err := verifUnhex(t)
+				if err != nil {
+					return c, err
+				}
+				c.args = append(c.args, v)
+			}
+		}
+	}
+	return c, nil
+}
+
+func verifShowOptions(o *Options) string {
+	var parts []string
+	v := reflect.ValueOf(o).Elem()
+	for i := 0; i < v.NumField(); i++ {
+		name := v.Type().Field(i).Name
+		if name == "VFlowConfigPath" {
+			continue // not a setting: derived from -config
+		}
+		switch v.Field(i).Kind() {
+		case reflect.Int:
+			parts = append(parts, name+"=i:"+strconv.FormatInt(v.Field(i).Int(), 10))
+		case reflect.Bool:
+			parts = append(parts, name+"=b:"+strconv.FormatBool(v.Field(i).Bool()))
+		case reflect.String:
+			parts = append(parts, name+"=s:"+hex.EncodeToString([]byte(v.Field(i).String())))
+		}
+	}
+	return "ok " + strings.Join(parts, ";")
+}
+
+func verifClearEnv() {
+	for _, kv := range os.Environ() {
+		if i := strings.IndexByte(kv, '='); i > 0 {
+			if strings.HasPrefix(strings.ToUpper(kv[:i]), "VFLOW_") {
+				os.Unsetenv(kv[:i])
+			}
+		}
+	}
+}
+
+// the real code, in this process
+func verifRunOptions(c verifOptCase) (out string) {
+	verifClearEnv()
+	for _, kv := range c.env {
+		os.Setenv(kv[0], kv[1])
+	}
+	defer verifClearEnv()
+	saved := os.Args
+	defer func() { os.Args = saved }()
+	os.Args = append([]string{"vflow"}, c.args...)
+	flag.CommandLine = flag.NewFlagSet(os.Args[0], flag.ExitOnError)
+	flag.CommandLine.SetOutput(ioutil.Discard)
+
+	defer func() {
+		if p := recover(); p != nil {
+			out = "panic"
+		}
+	}()
+	o := NewOptions()
+	o.Logger = log.New(ioutil.Discard, "", 0)
+	o.flagSet()
+	return verifShowOptions(o)
+}
+
+func verifOptionsOracle(impl, expect string) string {
+	if !strings.HasPrefix(expect, "ok") {
+		if impl == expect {
+			return "ok"
+		}
+		return "fail:expected " + expect
+	}
+	if !strings.HasPrefix(impl, "ok ") {
+		return "fail:expected settings, got " + impl
+	}
+	want := map[string]string{}
+	if rest := strings.TrimSpace(strings.TrimPrefix(expect, "ok")); rest != "" {
+		for _, kv := range strings.Split(rest, ";") {
+			p := strings.SplitN(kv, "=", 2)
+			want[p[0]] = p[1]
+		}
+	}
+	dflt := map[string]string{}
+	for _, kv := range strings.Split(strings.TrimPrefix(verifShowOptions(NewOptions()), "ok "), ";") {
+		p := strings.SplitN(kv, "=", 2)
+		dflt[p[0]] = p[1]
+	}
+	seen := 0
+	for _, kv := range strings.Split(strings.TrimPrefix(impl, "ok "), ";") {
+		p := strings.SplitN(kv, "=", 2)
+		if w, ok := want[p[0]]; ok {
+			seen++
+			if p[1] != w {
+				return fmt.Sprintf("fail:%s is %s, documented precedence gives %s", p[0], p[1], w)
+			}
+		} else if p[1] != dflt[p[0]] {
+			return fmt.Sprintf("fail:%s is %s, no source sets it (default %s)", p[0], p[1], dflt[p[0]])
+		}
+	}
+	if seen != len(want) {
+		return "fail:a touched setting is missing from the output"
+	}
+	return "ok"
+}
+
+func TestVerifOptions(t *testing.T) {
+	if line := os.Getenv("VERIF_CHILD_CASE"); line != "" {
+		// child: run one case; the parent reads RESULT or the exit status
+		c, err := verifParseOptions(line, os.Getenv("VERIF_CHILD_CFG"))
+		if err != nil {
+			fmt.Println("RESULT bad-op")
+			return
+		}
+		fmt.Println("RESULT " + verifRunOptions(c))
+		return
+	}
+	in, out := os.Getenv("VERIF_IN"), os.Getenv("VERIF_OUT")
+	if in == "" || out == "" {
+		t.Skip("VERIF_IN/VERIF_OUT not set")
+	}
+	self, err := os.Executable()
+	if err != nil {
+		t.Fatal(err)
+	}
+	if _, err := os.Stat("/etc/vflow/vflow.conf"); err == nil {
+		t.Fatal("/etc/vflow/vflow.conf exists: the default configuration file would take part in every case")
+	}
+	dir, err := ioutil.TempDir("", "verifopts")
+	if err != nil {
+		t.Fatal(err)
+	}
+	defer os.RemoveAll(dir)
+	cfgPath := filepath.Join(dir, "vflow.conf")
+
+	fi, err := os.Open(in)
+	if err != nil {
+		t.Fatal(err)
+	}
+	defer fi.Close()
+	fo, err := os.Create(out)
+	if err != nil {
+		t.Fatal(err)
+	}
+	defer fo.Close()
+
+	sc := bufio.NewScanner(fi)
+	sc.Buffer(make([]byte, 1<<20), 1<<26)
+	for sc.Scan() {
+		line, expect := sc.Text(), ""
+		if i := strings.IndexByte(line, '\t'); i >= 0 {
+			line, expect = line[:i], line[i+1:]
+		}
+		if line == "new" {
+			fmt.Fprintln(fo, "new\t")
+			continue
+		}
+		c, err := verifParseOptions(line, cfgPath)
+		if err != nil {
+			fmt.Fprintf(fo, "bad-op\tfail:%v\n", err)
+			continue
+		}
+		os.Remove(cfgPath)
+		if c.file != nil {
+			body := strings.Join(c.file, "\n")
+			if len(c.file) > 0 {
+				body += "\n"
+			}
+			if err := ioutil.WriteFile(cfgPath, []byte(body), 0o644); err != nil {
+				t.Fatal(err)
+			}
+		}
+		var impl string
+		if strings.HasPrefix(expect, "exit") {
+			cmd := exec.Command(self, "-test.run=^TestVerifOptions$")
+			env := []string{}
+			for _, kv := range os.Environ() {
+				if !strings.HasPrefix(strings.ToUpper(kv), "VFLOW_") && !strings.HasPrefix(kv, "VERIF_") {
+					env = append(env, kv)
+				}
+			}
+			cmd.Env = append(env, "VERIF_CHILD_CASE="+line, "VERIF_CHILD_CFG="+cfgPath)
+			b, err := cmd.Output()
+			impl = ""
+			for _, l := range strings.Split(string(b), "\n") {
+				if strings.HasPrefix(l, "RESULT ") {
+					impl = strings.TrimPrefix(l, "RESULT ")
+				}
+			}
+			if impl == "" {
+				code := 0
+				if ee, ok := err.(*exec.ExitError); ok {
+					code = ee.ExitCode()
+				} else if err != nil {
+					code = -1
+				}
+				impl = "exit " + strconv.Itoa(code)
+			}
+		} else {
+			impl = verifRunOptions(c)
+		}
+		verdict := ""
+		if expect != "" {
+			verdict = verifOptionsOracle(impl, expect)
+		}
+		fmt.Fprintf(fo, "%s\t%s\n", impl, verdict)
+	}
+}
